@@ -25,6 +25,17 @@ EDITS = [
     ('C10', 'src/rpm/package.rs', [('let new_key_ids: Vec<String>', 'let ids_of_this_sig: Vec<String>'), ('if new_key_ids.len() != 1', 'if ids_of_this_sig.len() != 1'), ('new_key_ids.len().try_into().unwrap()', 'ids_of_this_sig.len().try_into().unwrap()'), ('key_ids.extend(new_key_ids);', 'key_ids.extend(ids_of_this_sig);')]),
     ('C05', 'src/rpm/headers/header.rs', [('IndexData::Int32(s) => s.first().copied(),', 'IndexData::Int32(values) => values.first().copied(),')]),
     ('C06', 'src/rpm/builder.rs', [('            file_rdevs.push(0);\n            file_devices.push(1);', '            file_devices.push(1);\n            file_rdevs.push(0);')]),
+    # units added last
+    ('C12', 'src/rpm/package.rs', [('let mut links: Vec<PathBuf> = Vec::new();', 'let mut links: Vec<PathBuf> = Vec::with_capacity(0);')]),
+    ('C12', 'src/rpm/package.rs', [('    let mut relative = PathBuf::new();\n    for component in path.components() {', '    let mut relative = PathBuf::new();\n    for part in path.components() {'), ('        match component {\n            std::path::Component::RootDir', '        match part {\n            std::path::Component::RootDir')]),
+    ('C13', 'src/version.rs', [('let ordering = prefix1.len().cmp(&prefix2.len());', 'let by_length = prefix1.len().cmp(&prefix2.len());'), ('                    if ordering != Ordering::Equal {\n                        return ordering;\n                    }\n                    let ordering = prefix1.cmp(prefix2);', '                    if by_length != Ordering::Equal {\n                        return by_length;\n                    }\n                    let ordering = prefix1.cmp(prefix2);')]),
+    ('C13', 'src/version.rs', [('(Some(_), None) => return Ordering::Less,\n            (None, Some(_)) => return Ordering::Greater,\n            (Some(a), Some(b)) => {\n                version1_part = a;\n                version2_part = b;\n                continue;\n            }\n            _ => (),\n        }\n\n        // if two strings', '(None, Some(_)) => return Ordering::Greater,\n            (Some(_), None) => return Ordering::Less,\n            (Some(a), Some(b)) => {\n                version1_part = a;\n                version2_part = b;\n                continue;\n            }\n            _ => (),\n        }\n\n        // if two strings')]),
+    ('C09', 'src/rpm/headers/header.rs', [('                let mut alignment = 0;\n                while store.len() % 4 > 0 {\n                    store.push(0);\n                    alignment += 1;', '                let mut alignment = 0;\n                while store.len() % 4 != 0 {\n                    store.push(0);\n                    alignment += 1;')]),
+    ('C07', 'src/rpm/payload.rs', [('        let name_len = self.name.len() + 1;\n        header.extend(format!("{:08x}", name_len).as_bytes());', '        let name_len = self.name.len() + 1;\n        let name_len_field = format!("{:08x}", name_len);\n        header.extend(name_len_field.as_bytes());')]),
+    ('C05', 'src/rpm/package.rs', [('let (basename, dir_index) = item;', 'let (base, dir_index) = item;'), ('acc.push(Path::new(dir).join(basename));', 'acc.push(Path::new(dir).join(base));')]),
+    ('C06', 'src/rpm/builder.rs', [('for d in self.requires.into_iter() {\n            require_names.push(d.name);\n            require_flags.push(d.flags.bits());\n            require_versions.push(d.version);', 'for d in self.requires.into_iter() {\n            require_flags.push(d.flags.bits());\n            require_names.push(d.name);\n            require_versions.push(d.version);')]),
+    ('C19', 'src/rpm/filecaps.rs', [('    if s.is_empty() || s.eq_ignore_ascii_case("all") {\n        return Ok(());\n    }', '    if s.eq_ignore_ascii_case("all") || s.is_empty() {\n        return Ok(());\n    }')]),
+    ('C15', 'src/version.rs', [('let (release, arch) = ra.rsplit_once(\'.\').unwrap_or((ra, ""));\n\n        (name, epoch, version, release, arch)', 'let (rel, arch) = ra.rsplit_once(\'.\').unwrap_or((ra, ""));\n        let release = rel;\n\n        (name, epoch, version, release, arch)')]),
 ]
 bad = 0
 for prop, rel, subs in EDITS:
